@@ -17,7 +17,8 @@ from ..gen.grids_extra import (build_fractured, cells_of, dense_incidence, faces
 
 ID = "C21"
 RULE = (
-    "Hypothesis draws either a grid spec (all families of C19: Cartesian / tensor / structured simplices / mixed "
+    "Hypothesis draws either a grid spec (all families of C19: Cartesian / tensor / structured simplices - the triangles "
+    "as a user-supplied cell-node array with permuted node order per cell and cyclically renumbered nodes - / mixed "
     "polygons / extruded polyhedra, dims 1-3) or a Cartesian md-grid with 0-3 axis-aligned lattice fractures in 2-d / "
     "1-3 rectangles in 3-d (X, T, L intersections, fractures touching the boundary; every subdomain of dimension "
     "0-3 produced by split_fractures is checked), optionally followed by extract_subgrid of a random cell subset "
@@ -54,7 +55,7 @@ LEVEL_NOTE = ("Grids of at most a few hundred cells. Fractured grids are Cartesi
 DESIGN_REF = "DESIGN.md section 4, C21"
 ASSUMPTIONS = ["scipy csc storage (indptr/indices/data) is the trusted representation of the incidence",
                "boundary-face queries use distinct face indices"]
-REQUIRED = {"src-plain": 0.2, "src-frac": 0.2, "src-hist": 0.1, "hist-split": 0.04, "hist-faces-split": 0.03,
+REQUIRED = {"tri-user-nodes-renumbered": 0.005, "src-plain": 0.2, "src-frac": 0.2, "src-hist": 0.1, "hist-split": 0.04, "hist-faces-split": 0.03,
             "hist-copy-independent": 0.04, "hist-copy": 0.01, "hist-flip": 0.01, "hist-shrink": 0.01, "hist-move": 0.01, "sub": 0.15, "dim1": 0.05, "dim2": 0.15, "dim3": 0.15,
             "gdim0": 0.02, "gdim1": 0.1, "has-fracture-faces": 0.1, "has-internal-faces": 0.3,
             "query-permuted": 0.2, "frac-dim3": 0.03}
@@ -65,7 +66,7 @@ def _spec(draw, tier):
     src = draw(st.sampled_from(["plain", "plain", "frac", "frac", "hist"]))
     s = {"src": src}
     if src == "plain":
-        s["grid"] = draw(grid_spec(gmsh=(tier == "thorough")))
+        s["grid"] = draw(grid_spec(gmsh=(tier == "thorough"), tri_user=2))
     elif src == "frac":
         s["frac"] = draw(frac_spec())
     else:
@@ -75,9 +76,9 @@ def _spec(draw, tier):
             s["frac"] = draw(frac_spec())
         elif s["mode"] == "flip":
             # (3-d faces store their nodes counter-clockwise w.r.t. the sign, so a pure sign flip is only valid in 1-d/2-d)
-            s["grid"] = draw(grid_spec(dims=(1, 2)))
+            s["grid"] = draw(grid_spec(dims=(1, 2), tri_user=2))
         else:
-            s["grid"] = draw(grid_spec())
+            s["grid"] = draw(grid_spec(tri_user=2))
         s["cells"] = draw(st.lists(st.integers(0, 400), min_size=1, max_size=12))
         s["qseed"] = draw(st.integers(0, 2**31 - 1))
         s["sub"] = None
